@@ -80,6 +80,7 @@ type memStream struct {
 	sent      []*pb.SessionResponse
 	recvErrAt int // index at which Recv fails (-1 never)
 	sendErrAt int
+	fired     map[string]int
 }
 
 var errTransport = errors.New("verif: transport failure")
@@ -87,6 +88,9 @@ var errTransport = errors.New("verif: transport failure")
 func (m *memStream) Recv() (*pb.SessionRequest, error) {
 	m.s.Point(simrt.KSeam, "stream.recv")
 	if m.pos == m.recvErrAt {
+		if m.fired != nil {
+			m.fired["transport.recv-error"]++
+		}
 		return nil, errTransport
 	}
 	if m.pos >= len(m.reqs) {
@@ -112,6 +116,9 @@ func (m *memStream) Send(r *pb.SessionResponse) error {
 	}
 	m.sent = append(m.sent, r)
 	if len(m.sent)-1 == m.sendErrAt {
+		if m.fired != nil {
+			m.fired["transport.send-error"]++
+		}
 		return errTransport
 	}
 	return nil
@@ -221,7 +228,7 @@ func runC19(t *simrt.Tape, o Opts) Outcome {
 		}
 		reached := false
 		runStream := func(idx int, pl plan) {
-			ms := &memStream{s: s, recvErrAt: pl.recvErrAt, sendErrAt: pl.sendErrAt}
+			ms := &memStream{s: s, recvErrAt: pl.recvErrAt, sendErrAt: pl.sendErrAt, fired: w.Faults.Fired}
 			payloads := map[int][]byte{}
 			for i, k := range pl.seq {
 				var r *pb.SessionRequest
